@@ -22,4 +22,6 @@ PROPS = {
     "C13": dict(pkg="c13", run="^TestC13$", shards=8, timeout_quick=900, timeout_thorough=3000, net=113),
     "C07": dict(pkg="c07", run="^TestC07$", shards=8, timeout_quick=900, timeout_thorough=3000, net=107),
     "C18": dict(pkg="c18", run="^TestC18$", shards=8, timeout_quick=1200, timeout_thorough=3000, net=118),
+    "C17": dict(pkg="c17", run="^TestC17$", shards=8, timeout_quick=1200, timeout_thorough=3000, net=117,
+                extra_builds=[dict(pkg="c17", out="c17race.test", flags=["-race"])]),
 }
